@@ -93,7 +93,9 @@ func (s *IndexWriterBuilder) NewIndexWriters(dir, msName, dataFilePath, lockPath
 			if indexOpt != nil && len(indexOpt.Options) != 0 {
 				tokens = indexOpt.Options[0].Tokens
 			}
-		} else {
+		}
+		if tokens == "" {
+			// no tokens configured for this index: split like the readers and the row filter do
 			tokens = tokenizer.GetFullTextOption(&indexRelation).Tokens
 		}
 		indexWriter := NewIndexWriter(dir, msName, dataFilePath, lockPath, indextype.IndexType(indexRelation.Oids[i]), tokens)
